@@ -32,6 +32,30 @@ class HarnessMismatch(Exception):
   variable the harness cannot supply): reported as a harness problem (exit 2), never as a VIOLATION"""
 
 
+def raised_under_repo_code(exc):
+  """True when the exception propagated through (or was raised in) the repository's code -- a frame of a metric_learn module or of a
+  loop body sliced from it.  An exception with no such frame was raised by the harness itself (a KeyError / AttributeError while the
+  harness drives a refactored function, say): that is a harness problem, never evidence against the code."""
+  tb = exc.__traceback__
+  while tb is not None:
+    fn = tb.tb_frame.f_code.co_filename
+    if fn.startswith('<sliced') or '/metric_learn/' in fn.replace(os.sep, '/'):
+      return True
+    tb = tb.tb_next
+  return False
+
+
+class StandIn:
+  """base class of the harness's stand-ins for `self` when a sliced loop body runs outside its method: an attribute the stand-in does
+  not provide is a harness mismatch (the body now reads something the harness does not know), not an AttributeError of the code"""
+  verbose = False
+
+  def __getattr__(self, name):
+    if name.startswith('__'):
+      raise AttributeError(name)
+    raise HarnessMismatch('the stand-in for self has no attribute %r' % name)
+
+
 class Reject(Exception):
   """concrete mode: the sampled input does not satisfy an assumption."""
 
@@ -433,6 +457,9 @@ def run_symbolic(case):
     for p in paths:
       if isinstance(p.exc, HarnessMismatch):
         raise p.exc
+      if p.exc is not None and not raised_under_repo_code(p.exc):
+        raise HarnessMismatch('exception raised by the harness itself, not under the code under test: %s'
+                              % ''.join(traceback.format_exception(type(p.exc), p.exc, p.exc.__traceback__))[-900:])
       if p.exc is not None:
         msg = ''.join(traceback.format_exception_only(type(p.exc), p.exc)).strip()[:300]
         path_exc.append(msg)
@@ -500,6 +527,11 @@ def run_concrete(case, values=None, seed=0, n=1, tol=None):
       done += 1
       break
     except Exception as e:
+      if not raised_under_repo_code(e):
+        failures.append({'names': ['inconclusive:exception raised by the harness itself (%s: %s)' % (type(e).__name__, str(e)[:200])],
+                         'values': dict(ctx.drawn), 'error': traceback.format_exc()[-1200:]})
+        done += 1
+        break
       failures.append({'names': ['exception:' + type(e).__name__], 'values': dict(ctx.drawn),
                        'choices': list(ctx.choices), 'error': traceback.format_exc()[-1200:]})
       done += 1
